@@ -505,6 +505,45 @@ pub fn matrix(prop: &str, i: u64, rng: &mut Rng, out: &mut Outcome, dir: &Path) 
             out.violation(format!("{prop}|file-mode|{:o}", mode), format!("database file has mode {:o}", mode), json!({}));
         }
     }
+    // Files the library creates next to an EXISTING database whose mode somebody widened (a file
+    // restored from a backup, copied under umask 022): the rollback journal that exists while a
+    // transaction is open is created by the library and must be owner-only as well.
+    {
+        use mdk_storage_traits::MdkStorageProvider;
+        use mdk_storage_traits::groups::GroupStorage;
+        let pdir = sub.join("widened");
+        let _ = std::fs::create_dir_all(&pdir);
+        let wp = pdir.join("widened.db");
+        let u = crate::vstore::universe::Universe::new(rng.next());
+        let grp = crate::vstore::universe::GroupSpec { g: 0, nid: 0, nid_of: None, name: 0, desc: 0, admins: 1, epoch: 1, state: 0, img: 0, last: None, su: 1 }.build(&u);
+        if let Ok(st) = MdkSqliteStorage::new_with_key(&wp, EncryptionConfig::new(k1)) {
+            let _ = st.save_group(grp.clone());
+            drop(st);
+            let _ = std::fs::set_permissions(&wp, std::fs::Permissions::from_mode(0o644));
+            if let Ok(st) = MdkSqliteStorage::new_with_key(&wp, EncryptionConfig::new(k1)) {
+                let seen: Arc<std::sync::Mutex<Vec<(String, u32)>>> = Arc::new(std::sync::Mutex::new(vec![]));
+                let (s2, d2, main) = (seen.clone(), pdir.clone(), wp.clone());
+                set_thread_tick_hook(Some(Arc::new(move |l| {
+                    if l.contains("snapshot_group_state::") {
+                        for e in std::fs::read_dir(&d2).into_iter().flatten().flatten() {
+                            if e.path() != main {
+                                let mode = e.metadata().map(|m| m.permissions().mode() & 0o777).unwrap_or(0);
+                                s2.lock().unwrap().push((e.file_name().to_string_lossy().into_owned(), mode));
+                            }
+                        }
+                    }
+                    TickAction::Continue
+                })));
+                let _ = st.create_group_snapshot(&grp.mls_group_id, "perm-probe");
+                set_thread_tick_hook(None);
+                let seen = seen.lock().unwrap().clone();
+                out.add("sidecar_files_seen_inside_a_transaction_of_a_widened_database", seen.len() as u64);
+                if let Some((name, mode)) = seen.iter().find(|(_, m)| m & 0o077 != 0) {
+                    out.violation(format!("{prop}|file-mode|sidecar-of-existing-database|{:o}", mode), format!("{name}, created by the library while a transaction was open on an existing database whose mode had been widened to 644, has mode {:o}", mode), json!({}));
+                }
+            }
+        }
+    }
     let _ = std::fs::remove_dir_all(&sub);
 }
 
